@@ -195,4 +195,39 @@ def outsOf (r : Except Err (List BOut)) : Except Err (List Out) :=
   | .ok os => .ok (os.map (·.out))
   | .error e => .error e
 
+/-! ## Function bodies: `lift_initializers_to_constants` (run by `build_function` on every traced function body) -/
+
+/-- The attribute forms of an ONNX `Constant` node that can carry a number or a 1-D list of numbers. -/
+inductive ConstAttr
+  | value (dt : DType) (isList : Bool) (vals : List SVal)   -- `value`: a tensor with its own dtype
+  | valueFloat (v : SVal)                                   -- `value_float`: a FLOAT scalar
+  | valueInt (v : SVal)                                     -- `value_int`: an INT64 scalar
+  | valueFloats (vs : List SVal)                            -- `value_floats`: a FLOAT 1-D tensor
+  | valueInts (vs : List SVal)                              -- `value_ints`: an INT64 1-D tensor
+  deriving DecidableEq, Repr
+
+/-- The tensor a `Constant` node produces (ONNX operator specification; what a runtime, and stream 10 of the harness, see). -/
+def ConstAttr.denote : ConstAttr → Out
+  | .value dt isList vals => .const dt isList vals
+  | .valueFloat v => .const .float false [v]
+  | .valueInt v => .const .int64 false [v]
+  | .valueFloats vs => .const .float true vs
+  | .valueInts vs => .const .int64 true vs
+
+/-- `lift_initializers_to_constants`: every initializer becomes `Constant(value = <the initializer's tensor>)` —
+`ir.Attr("value", ir.AttributeType.TENSOR, tensor)`, never one of the compact forms. -/
+def liftInitializer (dt : DType) (isList : Bool) (vals : List SVal) : ConstAttr := .value dt isList vals
+
+/-- An operand of a function body after lifting: a promoted literal is now produced by a `Constant` node. -/
+def liftOperand (o : BOut) : Out :=
+  match o.out with
+  | .const dt isList vals => (liftInitializer dt isList vals).denote
+  | x => x
+
+/-- `build_function`: trace the call on a fresh builder, then lift the initializers. -/
+def castBuilderFunction {κ : Type} [DecidableEq κ] (fs : List (Formal κ)) (args : List Arg) : Except Err (List Out) :=
+  match (castBuilderC [] fs args).2 with
+  | .ok os => .ok (os.map liftOperand)
+  | .error e => .error e
+
 end OV.Autocast
